@@ -39,6 +39,10 @@ pub enum Mutation {
     Insignificant(u8),
     /// drop / add one optional field
     DropField(u8),
+    /// move one character of a field to another position of the same field (same multiset of characters)
+    MoveChar(u8, u16, u16),
+    /// append one character to a field / drop its last character (one value a prefix of the other)
+    Append(u8, char),
     /// replace the last character of one field by a neighbour of the same class (digit -> another
     /// digit, letter -> another letter): values that differ only at the very end of a long field
     BumpLast(u8),
@@ -175,6 +179,25 @@ fn mutate(f: &Fields, m: &Mutation) -> Fields {
             1 => g.subpath = if g.subpath.is_empty() { ".".into() } else { format!("./{}/..", g.subpath) },
             2 => g.ns = g.ns.replace('/', "//"),
             _ => g.quals.push(("zz-empty".into(), String::new())),
+        },
+        Mutation::MoveChar(i, from, to) => {
+            let s = field_mut(&mut g, *i);
+            let mut cs: Vec<char> = s.chars().collect();
+            if cs.len() >= 2 {
+                let a = (*from as usize * cs.len()) >> 16;
+                let c = cs.remove(a);
+                let b = (*to as usize * (cs.len() + 1)) >> 16;
+                cs.insert(b, c);
+            }
+            *s = cs.into_iter().collect();
+        },
+        Mutation::Append(i, c) => {
+            let s = field_mut(&mut g, *i);
+            if *c == '\0' {
+                s.pop();
+            } else {
+                s.push(*c);
+            }
         },
         Mutation::BumpLast(i) => {
             let s = field_mut(&mut g, *i);
@@ -342,6 +365,8 @@ fn o_pair(c: &PairCase, st: &mut Stats) -> Result<(), String> {
         Mutation::Insignificant(_) => "mutation:insignificant",
         Mutation::DropField(_) => "mutation:drop-field",
         Mutation::BumpLast(_) => "mutation:bump-last",
+        Mutation::MoveChar(..) => "mutation:move-char",
+        Mutation::Append(..) => "mutation:append-or-truncate",
     });
     Ok(())
 }
@@ -359,6 +384,8 @@ fn gmutation() -> BoxedStrategy<Mutation> {
         2 => any::<u8>().prop_map(Mutation::Insignificant),
         1 => any::<u8>().prop_map(Mutation::DropField),
         3 => any::<u8>().prop_map(Mutation::BumpLast),
+        3 => (any::<u8>(), any::<u16>(), any::<u16>()).prop_map(|(i, a, b)| Mutation::MoveChar(i, a, b)),
+        3 => (any::<u8>(), proptest::sample::select(&['\0', 'a', 'b', '0', '1', '_', '.', 'A'][..])).prop_map(|(i, c)| Mutation::Append(i, c)),
     ]
     .boxed()
 }
